@@ -1,7 +1,8 @@
 \* C08: axis definitions extracted from repository fixtures (ndjson file named by the environment variable
-\* C08_CASES; rationals as [n,d]). UVals/DVals/Den/GridMul/NMax are unused in this mode. The quantised
-\* two-route invariant is left out here (32-bit overflow on 3-digit coordinates); the exact one is checked,
-\* and checks/c08.py compares the real font against `norm` within `tolU` with Python fractions.
+\* C08_CASES; rationals as [n,d]) on their own -- used when the combined run (Source = "all") cannot hold some
+\* fixture in 32 bits and the fixtures are then evaluated one by one. UVals/DVals/Den/GridMul/NMax are unused.
+\* TwoRoutesQuantised exempts fixture cases (overflow on 3-digit coordinates); the exact invariant is checked
+\* and checks/c08.py compares the real font against `norm` within `tolU` with Python integers.
 SPECIFICATION Spec
 CONSTANTS
     Source = "file"
